@@ -26,7 +26,7 @@ def align_guard(ctx, rule='C16.align-guard'):
                     if any(a[0] == 'bin' and a[1].startswith('Mul') for a in atoms) or any(a[0] == 'call' and last_seg(strip_generics(a[2])) in ('index', 'index_mut') for a in atoms):
                         ncast += 1
     ctx.stats['page_view_casts'] = ncast
-    f = floor(rule, 'reinterpretations of byte offsets as Page', ncast, 3)
+    f = floor(rule, 'reinterpretations of byte offsets as Page', ncast, 1)
     if f:
         res.append(f)
     n = 0
@@ -177,6 +177,135 @@ def strict_guard(ctx, rule='C16.O6'):
     return res
 
 
+def no_pow2_arith(ctx, rule='C16.no-pow2-arith'):
+    """the builder accepts page sizes that are not powers of two, so no mask / shift arithmetic may be applied to a page size"""
+    res = []
+    F = ctx.facts
+    # unless every public store of the page size is guarded by is_power_of_two
+    pow2_only = False
+    n = 0
+    nbit = 0
+    for fn in F.fns:
+        du = None
+        for bb in sorted(fn.reachable_blocks()):
+            for si, s in enumerate(fn.blocks[bb]['stmts']):
+                if s['k'] != 'assign':
+                    continue
+                rv = s['rv']
+                if rv['k'] == 'bin' and rv['op'] in ('BitAnd', 'BitOr', 'BitXor', 'Shl', 'Shr', 'ShlUnchecked', 'ShrUnchecked'):
+                    if rv.get('ty') not in ('u64', 'usize', 'u32'):
+                        continue
+                    if any(str(x).startswith('macro:') for x in s['span'].get('exp', [])):
+                        pass
+                    nbit += 1
+                    du = du or ctx.du(fn)
+                    fields = set()
+                    ptrcheck = False
+                    for o in (rv['a'], rv['b']):
+                        _, at = du.slice_operand(o)
+                        fields |= {(last_seg(a[1]), a[2]) for a in at if a[0] == 'field' and a[2] == 'pagesize' and a[1]}
+                        # rustc's debug-build alignment checks mask a pointer address (ptr-to-int transmute): not page-size arithmetic
+                        if any(a[0] == 'cast' and a[1] in ('Transmute', 'PointerExposeProvenance') for a in at):
+                            ptrcheck = True
+                    if ptrcheck:
+                        continue
+                    if fields:
+                        n += 1
+                        res.append(bad(rule, '%s | %s on a page size' % (fn.qual, rv['op']),
+                                       '%s applies `%s` to a value derived from the page size (%s) at %s: the builder accepts page sizes that are not powers of two (any multiple of 8 from 1024), '
+                                       'for which mask / shift arithmetic gives wrong page counts or offsets' % (fn.qual, rv['op'], sorted('%s.%s' % f for f in fields), fn.loc(bb, si)),
+                                       where=fn.loc(bb, si)))
+    ctx.stats['bit_ops_examined'] = nbit
+    f = floor(rule, 'positive control: bit operations on integers anywhere in the crate', nbit, 1)
+    if f:
+        res.append(f)
+    if n == 0:
+        res.append(ok(rule, 'none of the %d integer mask / shift operations in the crate is applied to a page size' % nbit, sites=nbit))
+    return res
+
+
+def remap_always(ctx, rule='C16.remap-always'):
+    """after the file was grown and mapped, the shared map is replaced on EVERY successful path of the resize role"""
+    res = []
+    try:
+        (rz,) = ctx.need('resize-role')
+    except AnchorError as e:
+        return [unresolved(rule, str(e))]
+    fn = rz
+    E = ctx.E
+    Ms = {bb for bb in fn.reachable_blocks() for si, s in enumerate(fn.blocks[bb]['stmts']) if any(e['ev'] == 'M' for e in E.classify_stmt(fn, bb, si, s))}
+    if not Ms:
+        return [floor(rule, 'store of the new map in the resize role', 0, 1)]
+    ok_rets = [bb for bb in fn.reachable_blocks() for s in fn.blocks[bb]['stmts']
+               if s['k'] == 'assign' and s['p']['l'] == 0 and s['rv']['k'] == 'agg' and s['rv'].get('variant') == 'Ok']
+    reach = fn.reach_from([0], avoid=Ms)
+    leak = [b for b in ok_rets if b in reach]
+    if leak:
+        res.append(bad(rule, '%s | successful return without replacing the shared map' % fn.qual,
+                       '%s can return Ok at %s without storing the new map into the shared slot: the file has grown and the header will point beyond the map every later transaction on this '
+                       'handle receives (index out of bounds on the next transaction)' % (fn.qual, fn.loc(leak[0])), where=fn.loc(leak[0])))
+    else:
+        res.append(ok(rule, 'every successful return of %s passes the store of the new map (%d returns)' % (fn.qual, len(ok_rets)), sites=len(ok_rets)))
+    f = floor(rule, 'successful returns of the resize role', len(ok_rets), 1)
+    if f:
+        res.append(f)
+    return res
+
+
+def flags_flow(ctx, rule='C16.flags-flow'):
+    """sibling call sites must agree on which option feeds a boolean parameter (an option wired to another option's parameter changes
+    behaviour under that option only)"""
+    res = []
+    F = ctx.facts
+    flags = [f['name'] for f in (F.adt_fields('DBFlags') or []) if f['ty'] == 'bool']
+    if not flags:
+        return [unresolved(rule, 'type DBFlags')]
+    # sources[(fn path, param idx)] = set of DBFlags fields reaching that bool parameter
+    sources = {}
+    sites = {}
+    changed = True
+    rounds = 0
+    while changed and rounds < 10:
+        changed = False
+        rounds += 1
+        for fn in F.fns:
+            du = None
+            for bb, t, target, c in F.call_sites(fn):
+                if target is None:
+                    continue
+                for i, a in enumerate(t['args']):
+                    if i + 1 > target.argc or target.locals[i + 1]['ty'] != 'bool':
+                        continue
+                    du = du or ctx.du(fn)
+                    _, atoms = du.slice_operand(a)
+                    src = {x[2] for x in atoms if x[0] == 'field' and x[1] and last_seg(x[1]) in ('DBFlags', 'OpenOptions') and x[2] in flags}
+                    for x in atoms:
+                        if x[0] == 'arg' and (fn.path, x[1]) in sources and fn.locals[x[1]]['ty'] == 'bool':
+                            src |= sources[(fn.path, x[1])]
+                    key = (target.path, i + 1)
+                    if src - sources.get(key, set()):
+                        sources.setdefault(key, set()).update(src)
+                        changed = True
+                    if src:
+                        sites.setdefault(key, []).append((fn, bb, sorted(src)))
+    n = 0
+    for (path, idx), srcs in sorted(sources.items()):
+        n += 1
+        g = F.by_path[path]
+        if len(srcs) > 1:
+            where = sites[(path, idx)][0]
+            res.append(bad(rule, '%s | parameter %s fed by different options (%s)' % (g.qual, g.local_name(idx), ','.join(sorted(srcs))),
+                           'the boolean parameter `%s` of %s receives different open options at different call sites (%s): one option is wired to another option\'s switch, so behaviour '
+                           'changes under that option (call sites: %s)' % (g.local_name(idx), g.qual, sorted(srcs), ['%s@%s<-%s' % (f.qual, f.loc(b), s2) for f, b, s2 in sites[(path, idx)]][:4]),
+                           where=where[0].loc(where[1])))
+        else:
+            res.append(ok(rule, 'parameter `%s` of %s is fed by option %s at all %d call sites' % (g.local_name(idx), g.qual, sorted(srcs), len(sites[(path, idx)])), sites=len(sites[(path, idx)])))
+    f = floor(rule, 'boolean parameters fed by an open option', n, 2)
+    if f:
+        res.append(f)
+    return res
+
+
 def run(ctx, tier):
     ob = commit.obligations(ctx)
     results = []
@@ -184,6 +313,9 @@ def run(ctx, tier):
     results += ob['O6']
     results += strict_guard(ctx)
     results += grow(ctx)
+    results += no_pow2_arith(ctx)
+    results += remap_always(ctx)
+    results += flags_flow(ctx)
     return dict(
         results=results, stats=dict(ctx.stats),
         explanation=(
@@ -191,5 +323,5 @@ def run(ctx, tier):
             '(counted), therefore every public store of a caller-supplied page size is dominated by a divisibility test against the alignment of Page whose failing edge does not return '
             '("every value the builder accepts must work or be refused cleanly"); (O6) the strict-mode check runs after all data writes, growth and remap and before the header write, '
             'only under the strict_mode flag; (grow) the growth decision compares the file length with num_pages*pagesize after the final high-water mark is known, the new size derives '
-            'from both, and the transaction\'s Pages are replaced from the new map behind the success edge.'),
+            'from both, and the transaction\'s Pages are replaced from the new map behind the success edge; (no-pow2-arith) no mask / shift arithmetic is applied to a page size (the builder accepts non-powers of two).'),
         assumptions=['the OS page size used by the default options is a multiple of 8'])
